@@ -47,3 +47,11 @@ Example C05_ex_1005 : code_verdict false
   {| wh := {| h_fin := 1; h_rsv1 := 0; h_rsv2 := 0; h_rsv3 := 0; h_opcode := 8 |}; wkey := None; wpayload := [3; 237] |}
   = Raise Protocol.
 Proof. vm_compute. reflexivity. Qed.
+
+From WS Require Import Gen.GenCont Proofs.ContGen.
+
+(* CODE TIE: the sequencing test of the model is the regenerated continuous_frame.validate *)
+Theorem C05_sequencing_is_the_code : forall cf f,
+  cf_validate cf f = cont_validate (c_recving cf) (a_opcode f).
+Proof. exact cf_validate_gen. Qed.
+Print Assumptions C05_sequencing_is_the_code.
